@@ -174,8 +174,29 @@ static void case_f(ByteSource& in, CaseInfo& ci) {
   }
 }
 static void check(ByteSource& in, CaseInfo& ci) { switch (in.pick({5, 6, 5, 6})) { case 0: case_z_cmp(in, ci); break; case 1: case_z_conv(in, ci); break; case 2: case_q(in, ci); break; default: case_f(in, ci); break; } }
+// ---- exhaustive sweep: every pair of signed values of up to three limbs with limbs from {0,1,2^63-1,2^63,2^64-2,2^64-1} ----------
+static uint64_t sweep_count() { return 432ull * 432ull; }
+static void sweep_item(uint64_t i, CaseInfo& ci) {
+  uint64_t ia = i % 432, ib = i / 432; Int A = palette_int(ia % 216, 3), B = palette_int(ib % 216, 3); if (ia >= 216) A = -A; if (ib >= 216) B = -B;
+  ci.d("a=%s b=%s", show(A).c_str(), show(B).c_str()); Z za, zb; mpz_ptr a = za.z, b = zb.z; mpz_from_int(a, A); mpz_from_int(b, B);
+  REQUIRE(sgn3(mpz_cmp(a, b)) == sgn3(ref::cmp(A, B)), "mpz_cmp(%s, %s)", show(A).c_str(), show(B).c_str()); REQUIRE(sgn3(mpz_cmpabs(a, b)) == sgn3(ref::cmpabs(A, B)), "mpz_cmpabs(%s, %s)", show(A).c_str(), show(B).c_str());
+  uint64_t u = B.low(); int64_t sv = (int64_t)u;
+  REQUIRE(sgn3(mpz_cmp_ui(a, u)) == sgn3(ref::cmp(A, Int::from_u64(u))), "mpz_cmp_ui(%s, %llu)", show(A).c_str(), (unsigned long long)u); REQUIRE(sgn3(mpz_cmp_si(a, sv)) == sgn3(ref::cmp(A, Int((long long)sv))), "mpz_cmp_si(%s, %lld)", show(A).c_str(), (long long)sv);
+  REQUIRE(sgn3(mpz_cmpabs_ui(a, u)) == sgn3(ref::cmpabs(A, Int::from_u64(u))), "mpz_cmpabs_ui(%s, %llu)", show(A).c_str(), (unsigned long long)u);
+  { int zone; double d = trunc_to_double(B, Int(1), zone); if (zone == 0) { Dy dd = dy_of_double(d); REQUIRE(sgn3(mpz_cmp_d(a, d)) == sgn3(cmp_dy(Dy{A, 0}, dd)), "mpz_cmp_d(%s, %a)", show(A).c_str(), d); REQUIRE(sgn3(mpz_cmpabs_d(a, d)) == sgn3(cmp_dy(Dy{A.abs(), 0}, Dy{dd.m.abs(), dd.e})), "mpz_cmpabs_d(%s, %a)", show(A).c_str(), d); } }
+  if (ib == 0) {   // single-operand conversions and predicates
+    REQUIRE(mpz_sgn(a) == A.sgn(), "mpz_sgn(%s)", show(A).c_str()); REQUIRE(mpz_get_ui(a) == A.low(), "mpz_get_ui(%s)", show(A).c_str());
+    auto inr = [&](const Int& lo, const Int& hi) { return A >= lo && A <= hi; };
+    REQUIRE((mpz_fits_ulong_p(a) != 0) == inr(Int(0), Int::from_u64(~0ull)), "mpz_fits_ulong_p(%s)", show(A).c_str()); REQUIRE((mpz_fits_slong_p(a) != 0) == inr(Int((long long)INT64_MIN), Int((long long)INT64_MAX)), "mpz_fits_slong_p(%s)", show(A).c_str());
+    REQUIRE((mpz_fits_uint_p(a) != 0) == inr(Int(0), Int::from_u64(UINT_MAX)), "mpz_fits_uint_p(%s)", show(A).c_str()); REQUIRE((mpz_fits_sint_p(a) != 0) == inr(Int((long long)INT_MIN), Int((long long)INT_MAX)), "mpz_fits_sint_p(%s)", show(A).c_str());
+    REQUIRE((mpz_fits_ushort_p(a) != 0) == inr(Int(0), Int(65535)), "mpz_fits_ushort_p(%s)", show(A).c_str()); REQUIRE((mpz_fits_sshort_p(a) != 0) == inr(Int(-32768), Int(32767)), "mpz_fits_sshort_p(%s)", show(A).c_str());
+    if (inr(Int((long long)INT64_MIN), Int((long long)INT64_MAX))) REQUIRE(Int((long long)mpz_get_si(a)) == A, "mpz_get_si(%s)", show(A).c_str());
+    int zone; double e = trunc_to_double(A, Int(1), zone); double g = mpz_get_d(a); REQUIRE(g == e, "mpz_get_d(%s) = %a, exact truncation %a", show(A).c_str(), g, e);
+  }
+}
 namespace eng {
 PropDef g_prop = {"C11",
   "Cases: integers / rationals / hand-built mpf values at 0, +-1, +-2^k, +-2^k+-1,2 for k in {7,8,15,16,31,32,52,53,54,62,63,64,65,127,128,1023,1024,1074} and random; doubles from bit patterns (subnormals, 2^k neighbourhoods, halves, huge exponents, +-inf, +-0; never NaN) and doubles adjacent to the integer operand; values with more than 53 significant bits whose discarded part exceeds half an ulp; mpq_cmp_ui/si with common factors in num2/den2 and with the non-canonical equal value; mpf values in a different representation of the same number. Functions: mpz_cmp/cmpabs/_ui/_si/_d/sgn, mpz_set_ui/si/ux/sx/d, mpz_get_ui/si/ux/sx/d/d_2exp, the eight mpz_fits_*_p, mpq_cmp/_ui/_si/_z/equal/get_d, mpf_cmp/_d/_ui/_si/_z, mpf_get_d/d_2exp/si/ui, mpf_integer_p, the six mpf_fits_*_p. Oracle: refint exact rational comparison and exact IEEE truncation toward zero (infinity on overflow; below the normal range the exact subnormal truncation or 0.0 is accepted because the manual calls that range system dependent); get_si/get_ui outside the representable range is not asserted. Non-trivial: non-zero operand. Distinct = hash of all decoded choices.",
-  check, nullptr, {"mpf_cmp_d:a_next_to_d", "double:subnormal", "double:near_2^k", "double:inf", "more_than_53_bits", "cmp_d:more_than_53_bits", "get_d:overflow", "get_d:below_normal_range", "cmp_ui:common_factor", "mpf:near_boundary", "mpf_cmp:equal_different_repr", "set_d:fraction"}};
+  check, nullptr, {"mpf_cmp_d:a_next_to_d", "double:subnormal", "double:near_2^k", "double:inf", "more_than_53_bits", "cmp_d:more_than_53_bits", "get_d:overflow", "get_d:below_normal_range", "cmp_ui:common_factor", "mpf:near_boundary", "mpf_cmp:equal_different_repr", "set_d:fraction"}, nullptr, sweep_count, sweep_item,
+  "every pair of signed values of up to three limbs with limbs from {0,1,2^63-1,2^63,2^64-2,2^64-1} (432 x 432): mpz_cmp, mpz_cmpabs, mpz_cmp_ui/_si/cmpabs_ui with the low limb of b, mpz_cmp_d/cmpabs_d with b as a double when exactly representable; for every value: mpz_sgn, get_ui, get_si (in range), the six fits predicates, mpz_get_d"};
 }
